@@ -151,8 +151,15 @@ class ServerWorld:
 
             def destroy(self):
                 world.destroys[self._sim_serial] = world.destroys.get(self._sim_serial, 0) + 1
-                if world.cfg.get("destroy_cost_us"):
-                    world.clock.advance(world.cfg["destroy_cost_us"])      # releasing an instance takes (virtual) time
+                if world.cfg.get("destroy_cost_us") and world.destroys[self._sim_serial] == 1:
+                    # releasing an instance takes (virtual) time, and other requests can be served meanwhile: a small part
+                    # of the cost, a scheduling point, then the rest (charged once per instance)
+                    from sim.threads import Scheduler
+                    cost = world.cfg["destroy_cost_us"]
+                    world.clock.advance(cost // 7)
+                    if Scheduler.active is not None:
+                        Scheduler.active.yield_now("slow_release")
+                    world.clock.advance(cost - cost // 7)
                 return super().destroy()
 
         def factory():
